@@ -14,14 +14,14 @@ import (
 // GlobFilter implements the Filter interface using glob pattern matching
 type GlobFilter struct {
 	// cache for compiled patterns to improve performance
-	patternCache map[string]bool
+	patternCache map[patternCacheKey]bool
 	cacheMu      sync.RWMutex
 }
 
 // NewGlobFilter creates a new GlobFilter instance
 func NewGlobFilter() ports.Filter {
 	return &GlobFilter{
-		patternCache: make(map[string]bool),
+		patternCache: make(map[patternCacheKey]bool),
 	}
 }
 
@@ -133,10 +133,17 @@ func (f *GlobFilter) Matches(config *domain.FilterConfig, itemName string) bool 
 	return true
 }
 
+type patternCacheKey struct {
+	name    string
+	pattern string
+}
+
 // matchesPattern checks if a string matches a glob pattern with caching
 func (f *GlobFilter) matchesPattern(s, patternStr string) bool {
 	// caching for perf
-	cacheKey := fmt.Sprintf("%s::%s", s, patternStr)
+	// a struct key keeps (name, pattern) pairs apart; a joined string such as "x::x" + "::" + "*"
+	// collides with "x" + "::" + "x::*"
+	cacheKey := patternCacheKey{name: s, pattern: patternStr}
 
 	f.cacheMu.RLock()
 	if result, exists := f.patternCache[cacheKey]; exists {
@@ -184,5 +191,5 @@ func (f *GlobFilter) createResultFromItems(items interface{}, rejected []interfa
 func (f *GlobFilter) ClearCache() {
 	f.cacheMu.Lock()
 	defer f.cacheMu.Unlock()
-	f.patternCache = make(map[string]bool)
+	f.patternCache = make(map[patternCacheKey]bool)
 }
